@@ -20,6 +20,13 @@ impl Copy for Timestamp {}
 impl Clone for Timestamp { fn clone(&self) -> Self { *self } }
 #[verifier::external_body]
 pub fn ts_lt(a: Timestamp, b: Timestamp) -> (r: bool) ensures r == (a.0 < b.0) { a.0 < b.0 }
+impl Timestamp {
+    /// derived Ord on the tuple struct: `a.min(b)` / `a.max(b)` by the seconds
+    #[verifier::external_body]
+    pub fn min(self, o: Timestamp) -> (r: Timestamp) ensures r.0 == (if self.0 <= o.0 { self.0 } else { o.0 }) { unimplemented!() }
+    #[verifier::external_body]
+    pub fn max(self, o: Timestamp) -> (r: Timestamp) ensures r.0 == (if self.0 >= o.0 { self.0 } else { o.0 }) { unimplemented!() }
+}
 impl<T: Tag> IndexEntry<T> {
     /// V:c09_from_entries:IndexEntry::new
     #[verifier::external_body]
@@ -167,8 +174,11 @@ impl PackageBuilder {
                 ],
           header='''    /// B10 - one iteration of the file loop (the statements between the owner bookkeeping and the payload writing).
     /// Free variables: self.source_date, self.directories, entry, ino_index, the sixteen arrays (a).
-    pub fn b10_file_arrays(&self, entry: &PackageFileEntry, ino_index: u32, a: &mut FileArrays)
+    /// `now` / `build_time`: the clock reading and the clamped build time - values prepare_data computes elsewhere; passed in
+    /// so that a body that starts to use them here is judged (against the file's OWN clamped time) instead of rejected.
+    pub fn b10_file_arrays(&self, entry: &PackageFileEntry, ino_index: u32, a: &mut FileArrays, now: Timestamp, build_time: Timestamp)
         requires
+            build_time.0 == clamped(self.source_date, now),
             // established by add_data for every entry it stores (unit c06_add_data: entry.dir is inserted into directories)
             exists|j: int| 0 <= j < self.directories.names@.len() && self.directories.names@[j] == entry.dir@,
             self.directories.names@.len() <= u32::MAX,
@@ -277,10 +287,11 @@ pub open spec fn rec_u16s(e: IndexEntry<IndexTag>, tag: u32, v: Seq<u16>) -> boo
 pub open spec fn rec_u32s(e: IndexEntry<IndexTag>, tag: u32, v: Seq<u32>) -> bool { e.tag == tag && e.data is Int32 && e.data->Int32_0@ == v }
 pub open spec fn rec_strs(e: IndexEntry<IndexTag>, tag: u32, v: Seq<String>) -> bool { e.tag == tag && e.data is StringArray && e.data->StringArray_0@ == v }
 // vacuity canaries: must FAIL
-pub fn canary_b10(b: &PackageBuilder, e: &PackageFileEntry, a: &mut FileArrays)
+pub fn canary_b10(b: &PackageBuilder, e: &PackageFileEntry, a: &mut FileArrays, now: Timestamp, bt: Timestamp)
     requires exists|j: int| 0 <= j < b.directories.names@.len() && b.directories.names@[j] == e.dir@, b.directories.names@.len() <= u32::MAX,
+        bt.0 == clamped(b.source_date, now),
 {
-    b.b10_file_arrays(e, 0, a);
+    b.b10_file_arrays(e, 0, a, now, bt);
     assert(a.file_sizes@.len() == 0);
 }
 pub fn canary_b11(b: PackageBuilder, records: Vec<IndexEntry<IndexTag>>, size_entry: IndexEntry<IndexTag>, a: FileArrays)
